@@ -929,7 +929,28 @@ def scen_failed_target_becomes_dir(rng):
     return {'tree': tree, 'funcs': funcs, 'steps': steps}
 
 
-SCENARIOS = [scen_failed_target_becomes_dir, scen_funcname, scen_nested_failure, scen_swap, scen_stale_dir, scen_dups, scen_versions, scen_reads, scen_identity, scen_foreign_swap, scen_sibling_failure, scen_todir, scen_selfread, scen_file_becomes_parent, scen_olddir_becomes_target, scen_prefix_siblings, scen_overlay_order, scen_nested_reuse, scen_double_failure]
+def scen_reuse_inside_failing(rng):
+    """a build_file whose function reuses a cached subbuild (which built a file in the same new directory) and then
+    fails, caught by the caller: the directory still holds the reused output, so it must stay visible - the
+    reservation made for the reused output keeps it alive when the failing call gives its own up"""
+    g = rng.choice(NAMES)
+    sub = rng.choice(['x', 'x/y'])
+    p_b = '%s/%s/b' % (g, sub)
+    p_a = '%s/%s/%s' % (g, sub, rng.choice(['a', 'in/a']))
+    tail = rng.choice([[['raise', 5]], [['raise', 5]], []])          # raises after writing / returns having written nothing?
+    outer = [_sb(2, catch=False)] + ([['w', None]] if rng.random() < 0.8 else []) + [['if', ['arg', _e(1)], tail or [['raise', 7]], []]]
+    looks = [_q('is_dir', '%s/%s' % (g, sub)), _q('list_dir', g), _q('exists', g), _q('walk', '', True), _q('is_file', p_a)]
+    rng.shuffle(looks)
+    funcs = [_fn('f0', [['if', ['arg', _e(0)], [_bf(p_b, 1, arg=0, catch=True)], [_bf(p_b, 1, arg=1, catch=True)]]] + looks[:rng.randint(2, 5)]),
+             _fn('f1', outer),
+             _fn('f2', [_bf(p_a, 3, catch=False, cmp_=rng.choice('MH'))]),
+             _fn('f3', [['w', None]])]
+    funcs.append(_fn('rootfail', funcs[0]['stmts'] + [['raise', 99]]))
+    steps = [_build(arg=0), _build(arg=1), _build(arg=1), _build(arg=0)]
+    return {'tree': [], 'funcs': funcs, 'steps': steps}
+
+
+SCENARIOS = [scen_reuse_inside_failing, scen_failed_target_becomes_dir, scen_funcname, scen_nested_failure, scen_swap, scen_stale_dir, scen_dups, scen_versions, scen_reads, scen_identity, scen_foreign_swap, scen_sibling_failure, scen_todir, scen_selfread, scen_file_becomes_parent, scen_olddir_becomes_target, scen_prefix_siblings, scen_overlay_order, scen_nested_reuse, scen_double_failure]
 
 
 def gen_scenario_cases(seed, per_family, dirsize=4096, families=SCENARIOS):
